@@ -78,6 +78,7 @@ struct Explorer {
         return ops[id].enabled(w, s);
     }
 
+    mutable long curParent = -1;
     void stateOracles(World& w, const WSnap& s, Sink& sink, Stats& st, FILE* dig) const {
         if (orc.c05) inv_C05(s.o, sink);
         if (orc.c11) { C11Stats cs; sweep_C11(w, s, sink, cs); st.lookups += cs.lookups; }
@@ -85,8 +86,8 @@ struct Explorer {
         if (orc.c03) { ProbeStats ps; probe_C03(w, s, sink, ps); st.probes03 += ps.probed; st.skipped03 += ps.skipped; }
         if (orc.c14 || orc.transcript) {
             Key d; Sink tmp; bool ok = probe_C14(w, s, orc.c14 ? sink : tmp, d);
-            if (ok) { st.probes14++; if (dig) fprintf(dig, "%s %s\n", s.key.hex().c_str(), d.hex().c_str()); }
-            else if (dig && orc.transcript) fprintf(dig, "%s save_failed\n", s.key.hex().c_str());
+            if (ok) { st.probes14++; if (dig) fprintf(dig, "%s %s %ld\n", s.key.hex().c_str(), d.hex().c_str(), curParent); }
+            else if (dig && orc.transcript) fprintf(dig, "%s save_failed %ld\n", s.key.hex().c_str(), curParent);
         }
         if (orc.c13) {   // exercise print / save / load / destroy on every distinct state; the sanitizer is the oracle
             guarded([&] { silencedPrint(*w.c); });
@@ -119,7 +120,7 @@ struct Explorer {
         for (uint32_t pi = from; pi < frontier.size(); ++pi) {
             if ((int)(pi % (uint32_t)workers) != wi) continue;
             if (now() > deadline) { break; }
-            crumb->parent = pi; crumb->op = -1; crumb->progress++;
+            crumb->parent = pi; crumb->op = -1; crumb->progress++; curParent = (long)pi;
             const Hist& h = frontier[pi];
             std::vector<unsigned char> rec; Sink sink; std::vector<std::pair<int, size_t>> sinkOp;   // (op id, sink size after)
             auto emitSink = [&](int opId, size_t fromIdx) {
@@ -259,7 +260,11 @@ struct Explorer {
                     if (it == R.viols.end()) R.viols[key] = VRec{f[0], f[1], f[4], h, op, 1};
                     else { it->second.count++; if (h.size() < it->second.hist.size()) { it->second.hist = h; it->second.detail = f[4]; it->second.op = op; } }
                 }
-                if (orc.c14 || orc.transcript) { std::string d; if (readAll(base + ".dig", d)) { FILE* f = fopen((scratch + "/digests.txt").c_str(), "a"); fwrite(d.data(), 1, d.size(), f); fclose(f); } }
+                if (orc.c14 || orc.transcript) {
+                    std::ifstream fdg(base + ".dig"); std::string l; FILE* f = fopen((scratch + "/digests.txt").c_str(), "a");
+                    while (std::getline(fdg, l)) { size_t sp = l.rfind(' '); if (sp == std::string::npos) continue; long pi = atol(l.c_str() + sp + 1); if (pi < 0 || (size_t)pi >= frontier.size()) continue; fprintf(f, "%s\t%s\n", l.substr(0, sp).c_str(), histText(frontier[(size_t)pi]).c_str()); }
+                    fclose(f);
+                }
                 for (const char* ext : {".bin", ".viol", ".dig", ".stat"}) unlink((base + ext).c_str());
             }
             bool incomplete = false; for (size_t i = 0; i < frontier.size(); ++i) if (status[i] == 2) incomplete = true;
